@@ -1,1 +1,100 @@
+//! Ordered-map model of the v1 contract state and an independent transcription of the
+//! documented state hash: the Merkle hash over the canonical compressed radix tree (nibble
+//! alphabet) of the key-value contents. Shares no code with `/repo`.
+use sha2::{Digest, Sha256};
+use std::collections::BTreeMap;
 
+pub type Map = BTreeMap<Vec<u8>, Vec<u8>>;
+
+fn nibbles(key: &[u8]) -> Vec<u8> {
+    let mut v = Vec::with_capacity(key.len() * 2);
+    for b in key {
+        v.push(b >> 4);
+        v.push(b & 0x0f);
+    }
+    v
+}
+
+/// H(value) = SHA256(BE64(len) || bytes)
+pub fn value_hash(v: &[u8]) -> [u8; 32] {
+    let mut h = Sha256::new();
+    h.update((v.len() as u64).to_be_bytes());
+    h.update(v);
+    h.finalize().into()
+}
+
+fn pack(path: &[u8]) -> Vec<u8> {
+    let mut out = Vec::with_capacity(path.len().div_ceil(2));
+    for c in path.chunks(2) {
+        out.push((c[0] << 4) | c.get(1).copied().unwrap_or(0));
+    }
+    out
+}
+
+/// Hash of the subtree holding `keys` (sorted, all sharing their first `depth` nibbles).
+fn node_hash(keys: &[(Vec<u8>, &Vec<u8>)], depth: usize) -> [u8; 32] {
+    let first = &keys[0].0;
+    let last = &keys[keys.len() - 1].0;
+    // longest common prefix of all keys beyond depth = lcp(first, last) since sorted
+    let mut lcp = 0;
+    while depth + lcp < first.len() && depth + lcp < last.len() && first[depth + lcp] == last[depth + lcp] {
+        lcp += 1;
+    }
+    let path = &first[depth..depth + lcp];
+    let split = depth + lcp;
+    let (value, rest) = if first.len() == split { (Some(keys[0].1), &keys[1..]) } else { (None, keys) };
+    let mut h = Sha256::new();
+    match value {
+        Some(v) => {
+            h.update([1u8]);
+            h.update(value_hash(v));
+        }
+        None => h.update([0u8]),
+    }
+    h.update((path.len() as u64).to_le_bytes());
+    h.update(pack(path));
+    // children grouped by the nibble at `split`
+    let mut groups: Vec<(u8, &[(Vec<u8>, &Vec<u8>)])> = Vec::new();
+    let mut i = 0;
+    while i < rest.len() {
+        let nib = rest[i].0[split];
+        let mut j = i;
+        while j < rest.len() && rest[j].0[split] == nib {
+            j += 1;
+        }
+        groups.push((nib, &rest[i..j]));
+        i = j;
+    }
+    let mut ch = Sha256::new();
+    ch.update((groups.len() as u16).to_be_bytes());
+    for (nib, grp) in groups {
+        ch.update([nib]);
+        ch.update(node_hash(grp, split + 1));
+    }
+    h.update(ch.finalize());
+    h.finalize().into()
+}
+
+/// The documented hash of a contract state with the given contents.
+pub fn reference_hash(map: &Map) -> [u8; 32] {
+    if map.is_empty() {
+        return Sha256::digest(b"empty contract state").into();
+    }
+    let keys: Vec<(Vec<u8>, &Vec<u8>)> = map.iter().map(|(k, v)| (nibbles(k), v)).collect();
+    node_hash(&keys, 0)
+}
+
+/// Keys of the map with the given prefix, ascending.
+pub fn keys_with_prefix<'a>(map: &'a Map, prefix: &[u8]) -> Vec<&'a Vec<u8>> {
+    map.range(prefix.to_vec()..).take_while(|(k, _)| k.starts_with(prefix)).map(|(k, _)| k).collect()
+}
+
+#[cfg(test)]
+mod tests {
+    use super::*;
+    #[test]
+    fn empty() {
+        let m = Map::new();
+        assert_eq!(reference_hash(&m), <[u8; 32]>::from(Sha256::digest(b"empty contract state")));
+    }
+}
